@@ -427,8 +427,8 @@ class SStr(str, metaclass=_Meta):
         if not s_is_sym(s):
             return str.encode(s, encoding, errors)
         enc = encoding.lower().replace("_", "-")
-        if enc in ("utf-8", "utf8", "utf") and errors == "strict":
-            return utf8_encode(s)
+        if enc in ("utf-8", "utf8", "utf"):
+            return utf8_encode(s, errors)
         if enc in ("latin-1", "latin1", "iso-8859-1", "ascii") and errors == "strict":
             lim = 128 if enc == "ascii" else 256
             conc = sraw(s)
@@ -678,13 +678,23 @@ def sym_int_render(i):
 
 
 # ----------------------------------------------------------------------------- UTF-8
-def utf8_encode(s):
+def utf8_encode(s, errors="strict"):
+    """symbolic on every string the strict codec accepts (all error handlers agree there); a lone surrogate is a separate
+    branch: strict raises, other handlers are delegated to the real codec on the pinned value"""
     conc = sraw(s)
     out = []
+
+    def surrogate():
+        if errors != "strict":
+            pin_str(s, f"str.encode(utf-8, {errors}) on a surrogate")
+        return str.encode(conc, "utf-8", errors)  # strict: raises UnicodeEncodeError
+
     for t, c in zip(s._cs, conc):
         o = ord(c)
         if z3.is_int_value(t):
-            out += [z3.IntVal(b) for b in c.encode("utf-8")]  # raises for surrogates, like the real codec
+            if 0xD800 <= o <= 0xDFFF:
+                return surrogate()
+            out += [z3.IntVal(b) for b in c.encode("utf-8")]
             continue
         if branch(t < 0x80, o < 0x80):
             out.append(t)
@@ -692,19 +702,23 @@ def utf8_encode(s):
             out += [0xC0 + t / 64, 0x80 + t % 64]
         elif branch(t < 0x10000, o < 0x10000):
             if branch(z3.And(t >= 0xD800, t <= 0xDFFF), 0xD800 <= o <= 0xDFFF):
-                return str.encode(conc, "utf-8")  # raises UnicodeEncodeError
+                return surrogate()
             out += [0xE0 + t / 4096, 0x80 + (t / 64) % 64, 0x80 + t % 64]
         else:
             out += [0xF0 + t / 262144, 0x80 + (t / 4096) % 64, 0x80 + (t / 64) % 64, 0x80 + t % 64]
     return mkb(SBytes, out, conc.encode("utf-8"))
 
 
-def utf8_decode(b):
+def utf8_decode(b, errors="strict"):
+    """RFC 3629 decoder, symbolic on every byte string the strict codec accepts (all error handlers agree there); each kind
+    of malformed input is its own branch: strict raises, other handlers are delegated to the real codec on the pinned value"""
     bs, raw = bterms(b), bytes(bytes.__iter__(b))
     out, i, n = [], 0, len(bs)
 
     def fail():
-        return bytes.decode(raw, "utf-8")  # raises UnicodeDecodeError with the codec's own message
+        if errors != "strict":
+            pin_bytes(b, f"bytes.decode(utf-8, {errors}) on malformed input")
+        return bytes.decode(raw, "utf-8", errors)  # strict: raises UnicodeDecodeError with the codec's own message
 
     def cont(k):
         return branch(z3.And(bs[k] >= 0x80, bs[k] <= 0xBF), 0x80 <= raw[k] <= 0xBF)
@@ -903,8 +917,8 @@ class SBytes(bytes, metaclass=_Meta):
         if not b_is_sym(s):
             return bytes.decode(s, encoding, errors)
         enc = encoding.lower().replace("_", "-")
-        if enc in ("utf-8", "utf8", "utf") and errors == "strict":
-            return utf8_decode(s)
+        if enc in ("utf-8", "utf8", "utf"):
+            return utf8_decode(s, errors)
         if enc in ("latin-1", "latin1", "iso-8859-1"):
             return mks(SStr, s._bs, braw(s).decode("latin-1"))
         pin_bytes(s, f"bytes.decode({encoding})")
